@@ -650,6 +650,10 @@ func confirmFatal(src string) parseReport {
 	return last
 }
 
+// fatalConfirmed counts confirmed hangs / process deaths of this run; after 6 the parser stream is
+// cut short (every further one costs seconds; the run fails with replays anyway).
+var fatalConfirmed int
+
 // parsePool runs the parser oracle over srcs with nw workers in batches; results keep the order of
 // srcs. Sources of a batch on which the worker hung or died are re-run one by one.
 func parsePool(srcs []string, nw int) []parseReport {
@@ -657,6 +661,9 @@ func parsePool(srcs []string, nw int) []parseReport {
 	reps := make([]parseReport, len(srcs))
 	var next int
 	var mu sync.Mutex
+	for i := range reps { // what stays if the stream is cut short by a storm of hangs
+		reps[i] = parseReport{Status: "skipped"}
+	}
 	var wg sync.WaitGroup
 	for k := 0; k < nw; k++ {
 		wg.Add(1)
@@ -672,8 +679,9 @@ func parsePool(srcs []string, nw int) []parseReport {
 				mu.Lock()
 				lo := next
 				next += batch
+				storm := fatalConfirmed >= 6
 				mu.Unlock()
-				if lo >= len(srcs) {
+				if lo >= len(srcs) || storm {
 					return
 				}
 				hi := min(lo+batch, len(srcs))
@@ -695,6 +703,11 @@ func parsePool(srcs []string, nw int) []parseReport {
 						w = nil
 						if lo < hi { // srcs[lo] is the one the worker hung or died on
 							reps[lo] = confirmFatal(srcs[lo])
+							if reps[lo].Fatal {
+								mu.Lock()
+								fatalConfirmed++
+								mu.Unlock()
+							}
 							lo++
 						}
 					}
@@ -1212,13 +1225,18 @@ func runC03(cfg Config, r *Result) {
 		add(mutCase{genBytes(rng, 1+rng.Intn(60)), "random-bytes"})
 	}
 	for k := 0; k < cfg.N(40, 400); k++ {
-		add(mutCase{genDeepNest(rng, cfg.N(1500, 6000)), "deep-nest"})
+		add(mutCase{genDeepNest(rng, cfg.N(300, 600)), "deep-nest"})
 	}
 	flush()
+	if fatalConfirmed >= 6 {
+		r.Note("parser oracle cut short after %d confirmed hangs / process deaths (remaining inputs counted as parse:skipped)", fatalConfirmed)
+	}
 	r.Note("parser oracle: %d inputs in %.1fs on %d workers; lexer oracle + model correspondence: %.1fs", total, tParse.Seconds(), nw, tLex.Seconds())
 }
 
-// genDeepNest: deeply nested (balanced or cut) brackets; depth is far below what exhausts the Go stack.
+// genDeepNest: deeply nested (balanced or cut) brackets. Depth stays below 700: parsing nested array
+// literals is superlinear in the depth (about 4 s at depth 1600, 13 s at 3200 on the reference machine),
+// which is slow but not a hang, and depth 4 000 000 exhausts the 1 GB Go stack (see findings.d/C03.txt, notes).
 func genDeepNest(rng *rand.Rand, maxDepth int) string {
 	d := 50 + rng.Intn(maxDepth)
 	open, cl := []string{"(", "[", "{a:", "(-", "[1 ", "(f "}, []string{")", "]", "}", ")", "]", ")"}
